@@ -22,8 +22,8 @@ type Obligation struct {
 	Where  string // source position in /repo the goal was generated at
 	Fn     string
 	Script *Script
-	// ExpectFail marks canaries (must be refuted).
-	Note string
+	Raw    string // a complete SMT-LIB script (raw lemma obligations); unsat = proved
+	Note   string
 }
 
 // Cover is a satisfiability check guarding against vacuous proofs.
